@@ -176,7 +176,8 @@ RelClauses(c, prop) ==
        \cup {<<prop \o ".branch", e.tbl, ToString(e.lab)>> : e \in {e \in ERows(c.net) :
               LET f == RE(e)  sw == <<e.tbl, e.lab>> \in rev IN
               IF ~sw THEN ~(EqN(e.mf, f.mf) /\ EqN(e.mt, f.mt) /\ EqN(e.pf, f.pf) /\ EqN(e.pt, f.pt) /\ EqV(e.v, f.v)
-                            /\ EqN(e.vd, f.vd) /\ EqN(e.tf, f.tf) /\ EqN(e.tt, f.tt) /\ e.hydall = f.hydall)
+                            /\ EqN(e.vd, f.vd) /\ EqN(e.tf, f.tf) /\ EqN(e.tt, f.tt) /\ e.hydall = f.hydall
+                            /\ \A i \in DOMAIN e.gx : (IF i \in {3, 4} THEN EqV(e.gx[i], f.gx[i]) ELSE EqN(e.gx[i], f.gx[i])))
               ELSE ~(EqN(e.mf, f.mt) /\ EqN(e.mt, f.mf) /\ EqN(e.pf, f.pt) /\ EqN(e.pt, f.pf)
                      /\ EqV(e.v, IF IsNum(f.v) THEN Neg(f.v) ELSE f.v) /\ EqN(e.vd, IF IsNum(f.vd) THEN Neg(f.vd) ELSE f.vd)
                      /\ EqN(e.tf, f.tt) /\ EqN(e.tt, f.tf) /\ e.hydall = f.hydall)}}
@@ -195,6 +196,7 @@ Failures(c) ==
     \cup (IF "C03" \in Rng(c.check) THEN C03(c) ELSE {})
     \cup (IF "C06R" \in Rng(c.check) THEN RelClauses(c, "C06") ELSE {})
     \cup (IF "C09R" \in Rng(c.check) THEN RelClauses(c, "C09") ELSE {})
+    \cup (IF "C07R" \in Rng(c.check) THEN RelClauses(c, "C07") ELSE {})
     \cup (IF "C09S" \in Rng(c.check) THEN RelClauses(c, "C09.start_temperature") ELSE {})
     \cup (IF "C05" \in Rng(c.check) THEN C05_FailedEmpty(c) ELSE {})
 
